@@ -1,5 +1,5 @@
 (* C01/Properties.v — the property theorems for C01 and nothing else. *)
-From IoraVerif Require Import Common.Bytes C01.Model C01.Proofs.
+From IoraVerif Require Import Common.Bytes C01.Model C01.Proofs C01.Interest C01.InterestProofs.
 Local Open Scope N_scope.
 
 (* 1. For EVERY sequence of send commands, writable events, handshake completion and closes, with
@@ -37,6 +37,28 @@ Print Assumptions tcp_drop_policy_gap_refuted.
 Theorem tcp_read_stream_exact : forall chunks, concat (read_avail chunks) = concat chunks.
 Proof. exact read_concat. Qed.
 Print Assumptions tcp_read_stream_exact.
+
+(* 6. No lost re-arm: for EVERY sequence of send commands, writable events, handshake completion and closes and EVERY
+      answer to every write, the last epoll registration of an open session asks for writability exactly while bytes
+      are queued - so queued bytes are never stranded on a session that stays open (and an empty queue never spins). *)
+Theorem tcp_epollout_armed_iff_queued : forall maxq cbp hs l,
+  let x := fst (irun (iinit maxq cbp hs) l) in
+  t_open (i_s x) = true -> i_armed x = nonempty (t_wq (i_s x)).
+Proof. intros maxq cbp hs l. apply irun_armed_inv. apply iinit_armed_inv. Qed.
+Print Assumptions tcp_epollout_armed_iff_queued.
+
+(* 7. The interest layer observes the send path without changing it (theorems 1-4 speak about the same runs). *)
+Theorem tcp_interest_layer_conservative : forall l x,
+  i_s (fst (irun x l)) = fst (trun (i_s x) l) /\ snd (irun x l) = snd (trun (i_s x) l).
+Proof. exact irun_projects. Qed.
+Print Assumptions tcp_interest_layer_conservative.
+
+(* 8. A path that queues a remainder without registering afterwards strands it (what a seeded change did). *)
+Theorem tcp_forgotten_rearm_strands_refuted :
+  let x := forgetful_istep (iinit 8 true false) (TSend [1; 2; 3] (WShort 1)) in
+  t_open (i_s x) = true /\ t_wq (i_s x) = [[2; 3]] /\ i_armed x = false.
+Proof. exact forgetting_the_call_strands. Qed.
+Print Assumptions tcp_forgotten_rearm_strands_refuted.
 
 (* ------------------------------------------------ non-vacuity *)
 Example demo :
